@@ -96,6 +96,29 @@ def _reads_order_free(ctx, m, n_ids, feats, what):
     return True
 
 
+def _other_n_ids(ctx, m, n_ids, feats, what):
+    """n_hierarchical_parameters(k) answers for k individuals, whatever
+    number the model is configured for: it equals the counts of a copy that
+    is configured for k"""
+    k = (n_ids % 5) + 1
+    try:
+        got = tuple(int(v) for v in m.n_hierarchical_parameters(k))
+        c = copy.deepcopy(m)
+        c.set_n_ids(k)
+        want = (int(c.n_hierarchical_parameters(k)[0]), int(c.n_parameters()))
+    except Exception as e:      # noqa
+        ctx.violation_exc('accessor_raises', e, {'what': what}, feats)
+        return False
+    ctx.count('counts_for_other_n_ids')
+    if got != want:
+        _bad(ctx, 'population_counts',
+             {'problems': ['%s: n_hierarchical_parameters(%d) = %s, a copy '
+                           'configured for %d individuals has %s' % (
+                               what, k, got, k, want)]}, feats)
+        return False
+    return True
+
+
 # ------------------------------------------------------- population models
 class PopState(object):
     """chi population model + the Leaf description that mirrors it"""
@@ -140,6 +163,8 @@ def check_pop(ctx, st, rng, feats):
     h = Hierarchy(st.leaves, st.n_ids)
     n_free = h.n_top - len(st.fixed)
     if not _reads_order_free(ctx, m, st.n_ids, feats, st.ops[-3:]):
+        return False
+    if not _other_n_ids(ctx, m, st.n_ids, feats, st.ops[-3:]):
         return False
     ctx.count('invariant_evaluations')
     names = m.get_parameter_names()
@@ -230,7 +255,10 @@ def pop_op(rng, st, op):
             m.set_dim_names(None)
             st.dim_reset_pending = True
             return 'set_dim_names(reset)'
-        m.set_dim_names(['d%d' % i for i in rng.permutation(m.n_dim())])
+        # (sometimes names as long as 'compartment.variable Sigma base')
+        stem = 'd%d' if rng.random() < 0.7 else \
+            'peripheral_1.drug_concentration Sigma base %d'
+        m.set_dim_names([stem % i for i in rng.permutation(m.n_dim())])
         st.dim_reset_pending = False
         return 'set_dim_names(custom)'
     if op == 'set_parameter_names':
@@ -360,6 +388,37 @@ def _finish_hierarchical(ctx, rng, st, feats):
             _bad(ctx, 'hierarchical_gradient_length',
                  {'shape': np.asarray(g).shape, 'n_parameters': n,
                   'ops': st.ops}, feats)
+    # the likelihood works on its own copy of the population model: a
+    # parameter of that copy is fixed through get_population_model() (the
+    # only way to fix a population parameter of an existing likelihood)
+    pm_in = hl.get_population_model()
+    if isinstance(pm_in, chi.ReducedPopulationModel) and \
+            pm_in.n_parameters() > 1:
+        nm = pm_in.get_parameter_names()
+        if len(set(nm)) == len(nm):
+            try:
+                pm_in.fix_parameters({nm[-1]: 0.45})
+                n = hl.n_parameters()
+                names = hl.get_parameter_names()
+                ids = hl.get_id()
+                ctx.count('hierarchical_objects_checked')
+                if not (n == len(names) == len(ids)):
+                    _bad(ctx, 'hierarchical_counts',
+                         {'problems': ['after fixing %r through '
+                                       'get_population_model(): n=%s '
+                                       'names=%s ids=%s' % (
+                                           nm[-1], n, len(names), len(ids))],
+                          'ops': st.ops}, feats)
+                    return
+                s, g = hl.evaluateS1(np.full(len(names), 0.7))
+                if np.asarray(g).shape != (n,):
+                    _bad(ctx, 'hierarchical_gradient_length',
+                         {'shape': np.asarray(g).shape, 'n_parameters': n,
+                          'ops': st.ops}, feats)
+            except Exception as e:      # noqa
+                ctx.violation_exc('vector_of_reported_length_evaluates', e,
+                                  {'ops': st.ops, 'what': 'fixed through '
+                                   'get_population_model()'}, feats)
 
 
 def _pop_history(ctx, rng, leaves, n_ids, reduced, ops, tag, nest=None):
@@ -441,6 +500,8 @@ def _counts_agree(ctx, m, n_ids, feats, what):
     reported lengths; returns False after reporting a problem"""
     untouched = copy.deepcopy(m)    # no accessor called on it yet
     if not _reads_order_free(ctx, m, n_ids, feats, what):
+        return False
+    if not _other_n_ids(ctx, m, n_ids, feats, what):
         return False
     names = m.get_parameter_names()
     n = m.n_parameters()
